@@ -7,9 +7,9 @@ ALL = ["C%02d" % i for i in range(1, 21)]
 W = "Trusted base: the simulated node of DESIGN.md section 4 (atomic RPCs, part/pay semantics, crash model), the harness's own HTLC classifier (scen.rs) and the third-party lightning-invoice parser; interleavings are those at .await points of a seeded current-thread runtime; wall clock reaches the plugin only through stored attempt times aged on a 5 s grid."
 
 CHECKS = {
- "C01": dict(engine="WORLD", category="exploration", design="6 C01",
+ "C01": dict(engine="WORLD+PAR", category="exploration", design="6 C01",
    technique="stateful property-based testing: proptest-generated multi-lifetime scenarios against the real HtlcManager/ClnDatastore/PayPaymentProvider over a simulated node; invariant monitor at every resolve and pay",
-   text="Generated-input search (quick ~10^4, thorough ~10^5 scenarios): 1-3 payments, HTLCs carrying the invoice of another hash, late HTLCs, crashes and write faults; at every resolve the key must hash to the HTLC's own hash and stem from a completed part or Succeeded record; at every pay no held HTLC carrying that invoice may have another hash. Right level: the defect class (D1) needs a particular request shape plus a full lifecycle, which a generator reaches in every run. A phase starts with payment 0 already paid by an earlier run (Succeeded record in the pinned release's stored format + complete part).",
+   text="Generated-input search (quick ~10^4, thorough ~10^5 scenarios): 1-3 payments, HTLCs carrying the invoice of another hash, late HTLCs, crashes and write faults; at every resolve the key must hash to the HTLC's own hash and stem from a completed part or Succeeded record; at every pay no held HTLC carrying that invoice may have another hash. Right level: the defect class (D1) needs a particular request shape plus a full lifecycle, which a generator reaches in every run. A phase starts with payment 0 already paid by an earlier run (Succeeded record in the pinned release's stored format + complete part). A MANY phase pays 300-700 (thorough: up to 5000) different invoices in one process and then delivers late HTLCs for the early ones: each must be settled with its own preimage.",
    note=W),
  "C02": dict(engine="WORLD+PAR+E2E", category="fault_enumeration", design="6 C02",
    technique="stateful property-based testing with fault injection: generated schedules + systematic crash-point / write-fault enumeration (thorough) + read-fault profile (thorough); invariant monitor at every fail answer; parallel stress phase (multi-thread runtime, perturbed schedule) with answer/pay-call oracles",
@@ -23,9 +23,9 @@ CHECKS = {
    technique="stateful property-based testing: reference bound computed from the HTLCs held and the height told at the intent write, compared with maxdelay of every pay RPC",
    text="maxdelay <= min(policy delta, sat(sat(min expiry - height told) - safety delta)) with heights advancing (notifications and silent changes) while the set is collected, expiries clustered around the boundaries, extreme delta pairs (thorough); a low-relative-expiry HTLC before funding must prevent the pay. A phase restarts the plugin with a different configuration (policy, safety delta, MPP timeout) than the one the earlier lifetime ran with.",
    note=W),
- "C05": dict(engine="WORLD+PAR", category="fault_enumeration", design="6 C05",
+ "C05": dict(engine="WORLD+PAR+E2E", category="fault_enumeration", design="6 C05",
    technique="stateful property-based testing with crash-point enumeration: invariant monitor at every pay RPC against the node's sendpay table; parallel stress phase (multi-thread runtime, perturbed schedule) with answer/pay-call oracles",
-   text="No pay while a part of that hash is pending/complete or another pay runs; at most one completed payment group per hash. Generated overlaps of two lifecycles, crashes around intent writes and pay, stored histories Free/Pending/Succeeded; thorough enumerates every crash point and write fault of 150 base histories. A PAR phase releases all HTLCs of 1-10 funded sets at the same instant on an 8-thread runtime (real HtlcManager, stub collaborators, generated stalls at log call sites) and checks the answers and the pay calls. A phase restarts the plugin with a different configuration (policy, safety delta, MPP timeout) than the one the earlier lifetime ran with. A phase starts with payment 0 already paid by an earlier run (Succeeded record in the pinned release's stored format + complete part). Another phase fails only the stored-state read (listdatastore). Bursts of 3-4 rejected writes.",
+   text="No pay while a part of that hash is pending/complete or another pay runs; at most one completed payment group per hash. Generated overlaps of two lifecycles, crashes around intent writes and pay, stored histories Free/Pending/Succeeded; thorough enumerates every crash point and write fault of 150 base histories. A PAR phase releases all HTLCs of 1-10 funded sets at the same instant on an 8-thread runtime (real HtlcManager, stub collaborators, generated stalls at log call sites) and checks the answers and the pay calls. A phase restarts the plugin with a different configuration (policy, safety delta, MPP timeout) than the one the earlier lifetime ran with. A phase starts with payment 0 already paid by an earlier run (Succeeded record in the pinned release's stored format + complete part). Another phase fails only the stored-state read (listdatastore). Bursts of 3-4 rejected writes. MANY phase (hundreds of payments in one process, then late HTLCs). E2E: the binary is started on a datastore filled by earlier runs (paid 0-400 days ago): no new pay.",
    note=W),
  "C06": dict(engine="WORLD+E2E+PAR+FUZZ", category="exploration", design="6 C06",
    technique="property-based testing and fuzzing: byte-level request generators in WORLD (hang = unanswered after a fair drain in the model, panic hook), the same requests through the real binary (reply shape), libFuzzer campaign in thorough",
@@ -35,9 +35,9 @@ CHECKS = {
    technique="stateful property-based testing: per-instant batch monitor (all held HTLCs of a hash answered together, identically) and a reference rule for rejecting HTLCs; parallel stress phase (multi-thread runtime, perturbed schedule) with answer/pay-call oracles",
    text="Whenever one HTLC of a hash is answered, all HTLCs held for it are answered in the same instant with identical responses; a rejecting HTLC (conflicting invoice/amount, low expiry, low declared total) before funding means no pay for that lifecycle. 2-5 parts, rejecting HTLC at every position, arrivals while the state fetch is withheld. A PAR phase releases all HTLCs of 1-10 funded sets at the same instant on an 8-thread runtime (real HtlcManager, stub collaborators, generated stalls at log call sites) and checks the answers and the pay calls.",
    note=W),
- "C08": dict(engine="WORLD", category="fault_enumeration", design="6 C08",
+ "C08": dict(engine="WORLD+E2E", category="fault_enumeration", design="6 C08",
    technique="stateful property-based testing with fault enumeration: invariant over (datastore, sendpay table) after every applied RPC effect, i.e. on every crash image",
-   text="After every applied effect: parts pending/complete => stored Pending or Succeeded; stored Pending at every pay; Free only written when nothing is live; Succeeded holds a 32-byte preimage of the key's hash. Generated interleavings of two lifecycles of one hash, crashes, every write-fault kind; thorough enumerates all crash points/write faults of 150 base histories. A phase restarts the plugin with a different configuration (policy, safety delta, MPP timeout) than the one the earlier lifetime ran with. A phase starts with payment 0 already paid by an earlier run (Succeeded record in the pinned release's stored format + complete part). Another phase fails only the stored-state read (listdatastore). Bursts of 3-4 rejected writes.",
+   text="After every applied effect: parts pending/complete => stored Pending or Succeeded; stored Pending at every pay; Free only written when nothing is live; Succeeded holds a 32-byte preimage of the key's hash. Generated interleavings of two lifecycles of one hash, crashes, every write-fault kind; thorough enumerates all crash points/write faults of 150 base histories. A phase restarts the plugin with a different configuration (policy, safety delta, MPP timeout) than the one the earlier lifetime ran with. A phase starts with payment 0 already paid by an earlier run (Succeeded record in the pinned release's stored format + complete part). Another phase fails only the stored-state read (listdatastore). Bursts of 3-4 rejected writes. E2E: the binary is started on a datastore filled by earlier runs; the Succeeded record of a payment whose part is complete on the node must survive startup.",
    note=W),
  "C09": dict(engine="WORLD", category="fault_enumeration", design="6 C09",
    technique="fault enumeration + probe oracle: every crash point and single write fault of generated base histories, followed by a probe payment; fixpoint test of the stored image decides permanence",
@@ -119,9 +119,9 @@ def main():
         "engines": [
             {"name": "PURE", "path": "harness/src/props/c12.rs, c18.rs", "serves_properties": ["C12", "C18"], "kind_free_text": "proptest + exhaustive small scopes on functions of messages.rs / tlv.rs against reference models (refmodel.rs); `pure` crate = wrapping build"},
             {"name": "WORLD", "path": "harness/src/world.rs, node.rs, scen.rs, monitors.rs", "serves_properties": ["C01","C02","C03","C04","C05","C06","C07","C08","C09","C10","C11","C12","C13","C14","C15","C16","C20"], "kind_free_text": "real HtlcManager + ClnDatastore + PayPaymentProvider<Rpc> + BlockWatcher against a simulated lightningd over a unix socket in a paused, seeded tokio runtime; scenario = proptest value (payments, HTLCs, schedule, faults, crashes); monitors = invariants at node-side instants"},
-            {"name": "PAR", "path": "harness/src/props/par.rs", "serves_properties": ["C02","C05","C06","C07","C11"], "kind_free_text": "real HtlcManager on a multi-thread tokio runtime with in-memory stub collaborators; all handlers released behind one barrier, schedule perturbed by generated stalls at the plugin's log call sites; not schedule-deterministic (replay repeats a case up to 25 times)"},
+            {"name": "PAR", "path": "harness/src/props/par.rs", "serves_properties": ["C01","C02","C05","C06","C07","C11"], "kind_free_text": "real HtlcManager on a multi-thread tokio runtime with in-memory stub collaborators; all handlers released behind one barrier, schedule perturbed by generated stalls at the plugin's log call sites; not schedule-deterministic (replay repeats a case up to 25 times)"},
             {"name": "WIRE", "path": "harness/src/props/c17.rs", "serves_properties": ["C17"], "kind_free_text": "real cln_plugin driver over in-memory duplex pipes with generated chunking and handler completion order"},
-            {"name": "E2E", "path": "harness/src/e2e.rs, props/c19.rs", "serves_properties": ["C02","C06","C13","C14","C17","C19","C20"], "kind_free_text": "the real binary target/debug/trampoline (rebuilt from /repo) on pipes, against the simulated node with an autopilot"},
+            {"name": "E2E", "path": "harness/src/e2e.rs, props/c19.rs", "serves_properties": ["C02","C05","C06","C08","C13","C14","C17","C19","C20"], "kind_free_text": "the real binary target/debug/trampoline (rebuilt from /repo) on pipes, against the simulated node with an autopilot"},
             {"name": "FUZZ", "path": "harness/fuzz", "serves_properties": ["C18","C06"], "kind_free_text": "cargo-fuzz/libFuzzer targets with the semantic oracle inside (thorough tier)"},
         ],
         "checks": checks,
